@@ -112,6 +112,12 @@ def _var_counts(fn, d, dk, depth=0):
             l, r = n.c[0].strip_casts(), n.c[1].strip_casts()
             if l.k == "DeclRefExpr" and l.get("d") == d and l.get("dk") == dk:
                 k = _member_key(r)
+                if k not in COUNT_SPACE and r.k == "DeclRefExpr" and r.get("dk") == "local":
+                    # the bound cached in a local (`const int32_t leaf_bound = schema->num_leaves;`)
+                    ds = _defs(fn, r.get("d"))
+                    ks = set(_member_key(x.strip_casts()) for x in ds)
+                    if len(ds) >= 1 and len(ks) == 1:
+                        k = next(iter(ks))
                 if k in COUNT_SPACE:
                     out.add(k)
     if _P is not None and depth < 3:
